@@ -71,6 +71,12 @@ class Sym:
             for n, x in e[1][3]:
                 if n == name:
                     return x
+        # `?` on a value that is visibly Ok(x)/Some(x): the Continue payload is x
+        if (name == "0" and e[0] == "variant" and e[2] == "Continue" and e[1][0] == "call" and e[1][1].endswith("::Try>::branch") and len(e[1][2]) == 1
+                and e[1][2][0][0] == "agg" and e[1][2][0][2] in ("Ok", "Some")):
+            for n, x in e[1][2][0][3]:
+                if n == "0":
+                    return x
         return ("field", e, name)
 
     def local(self, l, depth=0):
